@@ -25,6 +25,7 @@ import Flowjaxv.Driver.Planar
 import Flowjaxv.Driver.BnafLd
 import Flowjaxv.Driver.BnafGen
 import Flowjaxv.Driver.BnafInitGen
+import Flowjaxv.Driver.PlanarInitGen
 import Flowjaxv.Driver.ElboAd
 import Flowjaxv.Driver.Flows
 import Flowjaxv.Driver.TrainGen
@@ -166,6 +167,7 @@ def dispatch (line : String) : String :=
       | "gbnaft" => gbnaft args
       | "gbnaflj" => gbnaflj args
       | "gbnafinit" => gbnafinit args
+      | "guplanarinit" => guplanarinit args
       | "gactlj" => gactlj args
       | "bnafild" => bnafild args
       | "bnaflj" => bnaflj args
